@@ -37,6 +37,7 @@ class HKnobs(object):
         self.p_clash = 0.35
         self.p_local = 0.6
         self.max_steps = 8
+        self.p_embed = 0.5        # a compound state's children come from an embedded HierarchicalMachine (own auto flag)
         self.p_enum = 0.0          # states given as nested Enum classes (member names shared between levels)
         self.__dict__.update(kw)
 
@@ -63,6 +64,14 @@ def all_paths(nodes, prefix=()):
         p = prefix + (n['name'],)
         out.append(list(p))
         out += all_paths(n['children'], p)
+    return out
+
+
+def all_nodes(nodes):
+    out = []
+    for n in nodes:
+        out.append(n)
+        out += all_nodes(n['children'])
     return out
 
 
@@ -106,6 +115,16 @@ def gen_case(rng, kn):
                 src = rng.choice(below)
                 dst = rng.choice(below)
                 node['local'].append([rng.choice(LOCAL_EVENTS), src, dst])
+    # embedded machines: a top-level compound (no parallel state inside) whose children, initial child and local
+    # transitions are given as a separate HierarchicalMachine with its OWN auto_transitions flag
+    for node in tree:
+        # (children without substates: `_add_machine_states` recognises the embedded machine's auto transitions by its
+        # TOP-LEVEL state names only, so `to_<nested state>` events of an embedded machine with substates are copied as
+        # local events — construction of embedded machines is C13's business)
+        flat_kids = node['children'] and not node['parallel'] and not any(c['children'] or c['local'] for c in node['children'])
+        if flat_kids and not is_enum and rng.random() < kn.p_embed:
+            # mostly the flag that differs from the embedding machine's
+            node['embed'] = {'auto': (not case['auto']) if rng.random() < 0.7 else case['auto']}
     for _ in range(rng.randint(1, 4)):
         src = rng.choice(paths)
         dst = rng.choice(paths) if rng.random() < 0.85 else None
@@ -124,7 +143,8 @@ def gen_case(rng, kn):
                      ROOT_EVENTS + ['may_go', 'trigger', 'may_trigger', 'to', 'other', 'mid'])
             for n in rng.sample(cands, min(len(cands), rng.randint(1, 3))):
                 level = rng.choice(['cls', 'cls', 'inst'])
-                kind = rng.choice(['method', 'method', 'int']) if level == 'cls' else rng.choice(['int', 'func'])
+                kind = rng.choice(['method', 'method', 'int', 'false', 'zero', 'empty']) if level == 'cls' \
+                    else rng.choice(['int', 'func', 'false', 'zero', 'empty'])
                 if n not in [x[0] for x in spec]:
                     spec.append([n, level, kind])
         case['models'].append(spec)
@@ -191,6 +211,15 @@ def to_dicts(nodes, sep):
             out.append(n['name'])
             continue
         d = {'name': n['name']}
+        if n.get('embed'):
+            # the documented way to reuse a machine: `children: <HierarchicalMachine instance>`
+            child = machine_class(sep)(model=None, states=to_dicts(n['children'], sep),
+                                       initial=n['initial'] or n['children'][0]['name'],
+                                       transitions=[[e, sep.join(src), sep.join(dst)] for e, src, dst in n['local']],
+                                       auto_transitions=n['embed']['auto'])
+            d['children'] = child
+            out.append(d)
+            continue
         if n['parallel']:
             d['parallel'] = to_dicts(n['children'], sep)
         elif n['children']:
@@ -431,6 +460,10 @@ def check_step(run, last_op, pending):
     paths = [p for p, _s in walk_states(m)]
     tables = scope_tables(m, sep)
     events = all_event_names(tables)
+    if not auto:
+        ghosts = [e for e in events if e.startswith('to_')]
+        if ghosts:
+            bad('monitor', 'to-event-exists-although-auto-transitions-are-off', events=ghosts)
     twin_m, twin_objs = copy.deepcopy((m, [run.objs[i] for i in run.registered]))
     # ---- claims (top-level attribute names) --------------------------------------------------
     want = {}
@@ -550,6 +583,13 @@ def check_step(run, last_op, pending):
                         ends_in=getattr(twin, attr))
                     break
             setattr(twin, attr, copy.deepcopy(cur))
+        if not auto:
+            # without auto transitions nothing named to_<…> exists: no event in any scope (the histories declare none
+            # themselves), no such helper on the model
+            ghosts = [n for n, v in vars(obj).items() if n.startswith('to_') and n not in user and
+                      (machine_bound(v) or type(v).__name__ == 'FunctionWrapper')]
+            if ghosts:
+                bad('monitor', 'to-helper-exists-although-auto-transitions-are-off', model=i, helpers=sorted(ghosts))
         # -- model.to(<state>) ------------------------------------------------------------------
         if 'to' in judged:
             for p in qpaths[:6]:
